@@ -238,6 +238,14 @@ SMALL = {
                                                         "T 1 set_flag 2", "T 1 sig_reg 2 12 0", "T 1 sig_unreg 2", "T 1 sig_reg 2 12 0", "T 1 sig_unreg 2",
                                                         "T 1 sig_reg 3 12 0", "T 1 tm_reg 1 1 1 0", "R tm 1 0 1 sig_unreg 1", "R tm 1 0 1 sig_unreg 3",
                                                         "T 1 iv_main", "T 1 iv_deinit", "S wait_flag 2", "S raise 10 1", "S raise 10 1", "S raise 10 1"])},
+    "C19": {
+        # the child is stopped and continued while the request is open (statuses that are not terminations),
+        # then the request is closed: the child is still signalled until it ends, and reaped
+        "stop-cont-close": ("sigsim=1 maxcb=300 pids=101", ["O popen 1", "O tm 1", "S popen 1 0", "S childpol 101 2 2", "S tm_reg 1 1 2 0",
+                                                          "R tm 1 0 1 popen_close 1", "E 1 child 101 2 19", "E 1 child 101 3 0"]),
+        "cont-close": ("sigsim=1 maxcb=300 pids=101", ["O popen 1", "O tm 1", "S popen 1 1", "S childpol 101 1 0", "S tm_reg 1 1 2 0",
+                                                     "R tm 1 0 1 popen_close 1", "E 1 child 101 3 0"]),
+    },
     "C11": {
         # thread 1's child dies; thread 1 signals it through the helper while the main thread, which receives
         # SIGCHLD, reaps it: the helper must look at the interest under the lock
